@@ -2,8 +2,10 @@
    Storage-level and operation-level accounting; the whole-history ledger is
    evaluated on every explored history by the check (harness ledger + the
    destroyed values predicted by the specification). *)
-From SV Require Import Base.ListX Store.Raw Store.RawRefine Store.CleanProps Store.Masked Store.StoreInv Store.DeadHandle
+From SV Require Import Base.ListX Store.Raw Store.RawRefine Store.CleanProps Store.Masked Store.StoreInv Store.Bag Store.Ledger
+  Store.DeadHandle
   World.Env World.WorldSpec World.World World.Simulation World.NoStuck.
+From Coq Require Import Sorting.Permutation.
 
 (* no operation ever reads a slot that was never written, was moved out, or lies outside the
    allocation: the faithful model marks each such access as stuck, and no history in which components
@@ -90,6 +92,38 @@ Theorem C08_lazy_values_are_applied_or_destroyed : forall e av hs so,
      end).
 Proof. reflexivity. Qed.
 
+(* ---- the ledger equation, operation by operation: [conserves m m' ins rets c c'] says that the values held
+   afterwards (m'), those handed back (rets) and those destroyed by the operation are, as multisets of uids, the
+   values held before (m) plus those moved in (ins).  [LInvS ms m]: the storage represents the map m and is of a
+   kind without default-filled gaps (Vec, Dense, HashMap, BTree, Null; plain, Flagged or DerefFlagged). ---- *)
+
+Theorem C08_insert_conserves : forall ms m av e v c, LInvS ms m ->
+  let '(ms', r, c') := st_insert ms av e v c in
+  exists m', LInvS ms' m' /\ cx_stuck c' = cx_stuck c /\
+    conserves m m' [fst (tnorm ms v)] (match r with InsOld t => [fst t] | _ => [] end) c c'.
+Proof. exact insert_conserves. Qed.
+
+Theorem C08_remove_conserves : forall ms m av e c, LInvS ms m ->
+  let '(ms', o, c') := st_remove ms av e c in
+  exists m', LInvS ms' m' /\ cx_stuck c' = cx_stuck c /\
+    conserves m m' [] (match o with Some t => [fst t] | None => [] end) c c'.
+Proof. exact remove_api_conserves. Qed.
+
+Theorem C08_get_mut_conserves : forall ms m av e touch nv c, LInvS ms m ->
+  let '(ms', o, c') := st_get_mut ms av e touch nv c in
+  exists m', LInvS ms' m' /\ c' = c /\ Permutation (bag m') (bag m).
+Proof. exact get_mut_conserves. Qed.
+
+Theorem C08_drain_conserves : forall ids ms m c, LInvS ms m ->
+  let '(ms', l, c') := st_drain_ids ms ids c in
+  exists m', LInvS ms' m' /\ cx_drops c' = cx_drops c /\ Permutation (bag m' ++ map fst l) (bag m).
+Proof. exact drain_conserves. Qed.
+
+Theorem C08_deleting_entities_conserves : forall ids ms m c, LInvS ms m ->
+  let '(ms', c') := m_drop_all ms ids c in
+  cx_stuck c' = cx_stuck c /\ exists m', LInvS ms' m' /\ conserves m m' [] [] c c'.
+Proof. exact purge_conserves. Qed.
+
 Example C08_nonvacuous :
   let s := {| v_len := 6; v_slots := NM.add 5 (SInit (13, 3%Z)) (NM.add 2 (SInit (12, 2%Z)) (NM.add 0 (SInit (11, 1%Z)) (NM.empty slot))) |} in
   rev (cx_drops (snd (vec_clean s [0; 2; 5] cx0))) = [11; 12; 13] /\
@@ -106,3 +140,8 @@ Print Assumptions C08_vec_clean_destroys_the_masked_slots_once.
 Print Assumptions C08_map_clean_destroys_every_value_once.
 Print Assumptions C08_null_clean_materialises_one_unit_per_member.
 Print Assumptions C08_lazy_values_are_applied_or_destroyed.
+Print Assumptions C08_insert_conserves.
+Print Assumptions C08_remove_conserves.
+Print Assumptions C08_get_mut_conserves.
+Print Assumptions C08_drain_conserves.
+Print Assumptions C08_deleting_entities_conserves.
